@@ -404,6 +404,8 @@ static std::vector<Spec> c04_specs(const std::string& tier) {
         { std::string s; for (int i = 0; i < 200; i++) s += "61"; s += "51"; add(sv, 0, s); }   // op count near 201
         add(sv, ref::F_STANDARD & ~ref::F_CONST_SCRIPTCODE & ~ref::F_CLEANSTACK, "51ab52ab935387");   // code separators
     }
+    // tapscript leaves containing OP_SUCCESSx (0x50): walked over without being executed, then the verdict; rewind must work as anywhere else
+    for (const char* h : {"51525093", "5051", "50", "5152935087", "51526350686a"}) add(ref::SigVer::TAPSCRIPT, 0, h);
     // tapscript signature budget: unknown key type + non-empty signature charges 50 per check; 110 covers two checks exactly once
     add(ref::SigVer::TAPSCRIPT, 0, "5152ac5152ac93", {}, "", 110);
     add(ref::SigVer::TAPSCRIPT, 0, "5152ac", {}, "", 60);
@@ -435,7 +437,8 @@ int main(int argc, char** argv) {
     if (mode == "c16") {
         // sessions for exec: the completing scripts of <= 3 ops (quick) / <= 4 ops (thorough) plus the hand-shaped ones; single-script only
         std::vector<Spec> s2; size_t lim = tier == "quick" ? 3 : 4;
-        for (auto& s : specs) if (s.successor.empty() && (s.script.size() <= lim || s.script.size() > 5)) s2.push_back(s);
+        auto has_success = [](const Spec& s) { if (s.sv != ref::SigVer::TAPSCRIPT) return false; for (size_t pc = 0; pc < s.script.size();) { ref::Op o = ref::decode_op(s.script, pc); if (!o.ok) return false; if (ref::is_op_success(o.code)) return true; pc = o.end; } return false; };
+        for (auto& s : specs) if (s.successor.empty() && (s.script.size() <= lim || s.script.size() > 5) && !has_success(s)) s2.push_back(s);
         specs.swap(s2);
         for (auto sv : {ref::SigVer::BASE, ref::SigVer::WITNESS_V0, ref::SigVer::TAPSCRIPT}) { Spec sp; sp.sv = sv; sp.flags = ref::F_STANDARD & ~ref::F_CLEANSTACK; sp.script = ref::unhex("5152935387"); specs.push_back(sp); sp.script = ref::unhex("51635267536851"); specs.push_back(sp); }
     }
